@@ -26,6 +26,7 @@ import (
 //	    registered on that path; functions that intentionally return holding a lock are listed by name
 //	G3  a struct field whose address is passed to sync/atomic anywhere in the package is never read or written
 //	    plainly outside construction
+//	G5  no append onto a loop-invariant slice inside a loop when the result outlives the iteration (C15.R4 generalised)
 //	G4  storage given back to a pool is not returned or stored by the function that releases it (a deferred release
 //	    counts for every return); followed through method results, slices, conversions that alias and spilled results
 //
@@ -508,6 +509,18 @@ func runGeneric(c *Ctx, spec *PropSpec) {
 		}
 	}
 	c.Pass(spec.ID+".G4", strings.Join(pkgs, ",")+":pool-releases", 0, fmt.Sprintf("%d releases to a pool judged", nrel))
+	// G5
+	c.Rule(spec.ID+".G5", "no append onto a loop-invariant slice inside a loop when the result outlives the iteration", 1)
+	napp := 0
+	for _, fn := range fns {
+		fs, k := appendOntoInvariant(fn)
+		napp += k
+		ord := ordCounter{}
+		for _, f := range fs {
+			c.Fail(spec.ID+".G5", ord.next(fn, "append-onto-invariant"), f.pos, fmt.Sprintf("append onto a loop-invariant slice inside a loop in %s (%s) and the result is kept: whenever the base has spare capacity every iteration writes its element into the same slot, so all the lists the loop builds end up identical - entries are filed under the wrong key, hosts or routes under the wrong list", fn.Name(), f.why))
+		}
+	}
+	c.Pass(spec.ID+".G5", strings.Join(pkgs, ",")+":appends-in-loops", 0, fmt.Sprintf("%d append-in-loop sites judged", napp))
 }
 
 func discoverGeneric(c *Ctx) {
@@ -529,6 +542,15 @@ func discoverGeneric(c *Ctx) {
 			fmt.Fprintf(os.Stderr, "G4 %s  %s  [%s]\n", shortPos(c, f.pos), fn.String(), f.what)
 		}
 	}
+	ns := 0
+	for _, fn := range fns {
+		fs, k := appendOntoInvariant(fn)
+		ns += k
+		for _, f := range fs {
+			fmt.Fprintf(os.Stderr, "G5 %s  %s  [%s]\n", shortPos(c, f.pos), fn.String(), f.why)
+		}
+	}
+	fmt.Fprintf(os.Stderr, "G5 %d append-in-loop sites\n", ns)
 }
 
 // ---------------------------------------------------------------------------------------------
@@ -672,3 +694,113 @@ func pooledEscapes(fn *ssa.Function) []g4Finding {
 }
 
 var pooledExceptions = map[string]string{}
+
+// ---------------------------------------------------------------------------------------------
+// G5 append onto a loop-invariant slice inside a loop (C15.R4 generalised)
+
+type g5Finding struct {
+	fn  *ssa.Function
+	pos token.Pos
+	why string
+}
+
+func appendOntoInvariant(fn *ssa.Function) (out []g5Finding, sites int) {
+	loops := naturalLoops(fn)
+	if len(loops) == 0 {
+		return nil, 0
+	}
+	forEachInstr(fn, false, func(_ *ssa.Function, in ssa.Instruction) {
+		call, ok := in.(*ssa.Call)
+		if !ok {
+			return
+		}
+		b, isB := call.Call.Value.(*ssa.Builtin)
+		if !isB || b.Name() != "append" {
+			return
+		}
+		var body map[*ssa.BasicBlock]bool
+		for _, bd := range loops {
+			if bd[call.Block()] && (body == nil || len(bd) < len(body)) {
+				body = bd
+			}
+		}
+		if body == nil {
+			return
+		}
+		sites++
+		base := call.Call.Args[0]
+		switch {
+		case isNilConst(base):
+			return
+		case definedIn(base, body):
+			if sl, isS := base.(*ssa.Slice); isS && sl.Max == nil && !definedIn(sl.X, body) {
+				// x[:0] of an outer buffer reused per iteration: fine only when the result does not outlive the iteration
+				if !appendResultRetained(call, body) {
+					return
+				}
+				out = append(out, g5Finding{fn, call.Pos(), "base re-slices a loop-invariant value without limiting its capacity"})
+			}
+			return
+		default:
+			if sl, isS := base.(*ssa.Slice); isS && sl.Max != nil {
+				return
+			}
+			if !appendResultRetained(call, body) {
+				return
+			}
+			out = append(out, g5Finding{fn, call.Pos(), "base is loop-invariant"})
+		}
+	})
+	return
+}
+
+// appendResultRetained: the slice built in this iteration is kept beyond it - appended to another slice, stored in a map,
+// a field or an element, passed to a call (which may keep it), returned, or sent on a channel.
+func appendResultRetained(call *ssa.Call, body map[*ssa.BasicBlock]bool) bool {
+	seen := map[ssa.Value]bool{}
+	var walk func(v ssa.Value, d int) bool
+	walk = func(v ssa.Value, d int) bool {
+		if seen[v] || d > 6 {
+			return false
+		}
+		seen[v] = true
+		for _, r := range refs(v) {
+			switch x := r.(type) {
+			case *ssa.Return, *ssa.Send, *ssa.MapUpdate, *ssa.MakeClosure, *ssa.Go, *ssa.Defer:
+				return true
+			case *ssa.Store:
+				if x.Val == v {
+					if _, isAlloc := x.Addr.(*ssa.Alloc); !isAlloc {
+						return true
+					}
+				}
+			case *ssa.Call:
+				if b, isB := x.Call.Value.(*ssa.Builtin); isB {
+					switch b.Name() {
+					case "append":
+						// element of another slice (append(ret, v)) or spread (append(ret, v...)): the latter copies
+						if len(x.Call.Args) == 2 && x.Call.Args[1] == v && x.Call.Args[0] != v {
+							if _, isSl := v.Type().Underlying().(*types.Slice); isSl && x.Type().String() == v.Type().String() {
+								continue // append(dst, v...) copies the elements
+							}
+							return true
+						}
+						if walk(x, d+1) {
+							return true
+						}
+					case "len", "cap", "copy":
+						continue
+					}
+					continue
+				}
+				return true // handed to a function that may keep it
+			case *ssa.Phi, *ssa.Slice, *ssa.ChangeType, *ssa.MakeInterface, *ssa.Convert:
+				if walk(x.(ssa.Value), d+1) {
+					return true
+				}
+			}
+		}
+		return false
+	}
+	return walk(call, 0)
+}
